@@ -121,12 +121,21 @@ Theorem collector_transparent :
 Proof. exact ConfigProofs.gc_config_independent. Qed.
 Print Assumptions collector_transparent.
 
+(* non-vacuity with a collector that really frees objects: one sweep of everything that is neither in a
+   register nor pointed to by a heap entry is safe; on the program below the collected heap ends with
+   fewer entries than the uncollected one and the observations are the same *)
 Example collector_transparent_nonvacuous :
+  collector_safe (fun _ => sweep_unreferenced) /\
   collector_safe (fun _ h _ => h) /\
-  snd (grun_cfg cfg_default (fun _ h _ => h) 0
-         [GAlloc 0 5%Z []; GAlloc 1 6%Z [(0, [])]; GDrop 0; GRead (1, [0]); GWrite (1, [0]) 9%Z; GMove 2 (1, [0]); GRead (2, [])]
-         g_empty) = [GUnit; GUnit; GUnit; GVal 5%Z; GUnit; GUnit; GVal 9%Z].
-Proof. split; [exact identity_collector_safe | vm_compute; reflexivity]. Qed.
+  let ops := [GAlloc 0 5%Z []; GAlloc 1 6%Z [(0, [])]; GDrop 0; GRead (1, [0]); GWrite (1, [0]) 9%Z;
+              GMove 2 (1, [0]); GRead (2, []); GAlloc 1 7%Z []; GRead (1, []); GDrop 2; GRead (1, []); GRead (1, [])] in
+  snd (grun_cfg cfg_default (fun _ => sweep_unreferenced) 0 ops g_empty)
+    = [GUnit; GUnit; GUnit; GVal 5%Z; GUnit; GUnit; GVal 9%Z; GUnit; GVal 7%Z; GUnit; GVal 7%Z; GVal 7%Z] /\
+  List.length (gheap (fst (grun_cfg cfg_default (fun _ => sweep_unreferenced) 0 ops g_empty))) = 1 /\
+  List.length (gheap (fst (grun_cfg (cfg_build false false true) (fun _ => sweep_unreferenced) 0 ops g_empty))) = 4.
+Proof.
+  split; [exact sweep_unreferenced_safe | split; [exact identity_collector_safe | vm_compute; repeat split; reflexivity]].
+Qed.
 
 (* 4d. that hypothesis cannot be dropped: a collector that frees a reachable object changes what the
        program reads *)
